@@ -59,11 +59,11 @@ Print Assumptions C02_commit_string_only_with_commit.
 (* the pre-fix witness and its behaviour after the fix *)
 Theorem C02_stale_commit_witness :
   (exists e1 e2 e3,
-    process_keyevent_prefix (m_set_options e0 (english default_options)) (key kc_X 120%N) = Ok (e1, BCommit) /\
+    process_keyevent_prefix (ed_set_options std_ops e0 (english default_options)) (key kc_X 120%N) = Ok (e1, BCommit) /\
     m_start_selecting e1 = Ok (e2, false) /\
     process_keyevent_prefix e2 (key kc_Left 65533%N) = Ok (e3, BIgnore) /\ commit_buf (sh e3) = [120%N]) /\
   (exists e1 e2 e3,
-    m_key conv_single (m_set_options e0 (english default_options)) (key kc_X 120%N) = Ok (e1, BCommit) /\
+    m_key conv_single (ed_set_options std_ops e0 (english default_options)) (key kc_X 120%N) = Ok (e1, BCommit) /\
     m_start_selecting e1 = Ok (e2, false) /\
     m_key conv_single e2 (key kc_Left 65533%N) = Ok (e3, BIgnore) /\ commit_buf (sh e3) = []).
 Proof. split; [exact C02_stale_commit_refuted_prefix | exact C02_stale_commit_fixed]. Qed.
